@@ -57,26 +57,26 @@ PROPS = {
         "assumptions": ["Ed25519 verification is a parameter: the verdict for each (key, signature) pair is the one the real verify returned"],
     },
     "C15": {
-        "modules": ["C15"],
+        "modules": ["C15", "PinC15"],
         "streams": [{"name": "seal", "quick": 180, "thorough": 7200}],
         "projection": "settlement",
         "oracles": ["settlement"],
         "assumptions": ["PoolState arithmetic and PoolKey parsing live in the dependency melstructs: modelled (exact Nat arithmetic for BigRational floor), compared on every seal"],
     },
     "C16": {
-        "modules": ["C16", "C16Hist"],
+        "modules": ["C16", "C16Hist", "PinC16"],
         "streams": [{"name": "seal", "quick": 180, "thorough": 7200}],
         "projection": "pools",
         "oracles": ["pools"],
     },
     "C17": {
-        "modules": ["C17"],
+        "modules": ["C17", "PinC17"],
         "streams": [{"name": "feemult", "quick": 300, "thorough": 9000}, {"name": "seal", "quick": 75, "thorough": 2400}, {"name": "activation", "quick": 75, "thorough": 2400}],
         "projection": "feemult",
         "oracles": ["feemult"],
     },
     "C01": {
-        "modules": ["C01", "C01Seal", "C01Whole"],
+        "modules": ["C01", "C01Seal", "C01Whole", "PinC01"],
         "streams": [{"name": "apply", "quick": 150, "thorough": 6400}, {"name": "seal", "quick": 150, "thorough": 6400}, {"name": "chain", "quick": 60, "thorough": 2400}],
         "projection": "supply",
         "oracles": ["conservation"],
@@ -108,7 +108,7 @@ PROPS = {
         "assumptions": ["Ed25519 verification and blake3 are parameters: the model is given the answers the real executor obtained (hook log) and a missing answer is a disagreement"],
     },
     "C05": {
-        "modules": ["C05"],
+        "modules": ["C05", "PinC05"],
         "streams": [{"name": "apply", "quick": 180, "thorough": 7200}, {"name": "seal", "quick": 90, "thorough": 3200}, {"name": "weight", "quick": 200, "thorough": 9000}],
         "projection": "fees",
         "oracles": ["fees"],
@@ -122,7 +122,7 @@ PROPS = {
         "assumptions": ["a block's header equality is decided on the real headers; the model computes the scalar header fields itself and is given the Merkle roots of the states involved"],
     },
     "C07": {
-        "modules": ["C07", "C07Chain"],
+        "modules": ["C07", "C07Chain", "PinC07"],
         "streams": [{"name": "chain", "quick": 90, "thorough": 4000}, {"name": "activation", "quick": 90, "thorough": 3200}, {"name": "merkle", "quick": 40, "thorough": 2400}],
         "projection": "chain",
         "oracles": [],
@@ -137,7 +137,7 @@ PROPS = {
         "assumptions": ["the content-addressed store is not modelled: fromBlock is given the tree contents the header's roots denote"],
     },
     "C13": {
-        "modules": ["C13", "C13Life"],
+        "modules": ["C13", "C13Life", "PinC13"],
         "streams": [{"name": "stake", "quick": 180, "thorough": 6400}, {"name": "apply", "quick": 90, "thorough": 3200}, {"name": "chain", "quick": 60, "thorough": 2400},
                     {"name": "confirm", "quick": 60, "thorough": 3200}],
         "projection": "stakes",
@@ -146,7 +146,7 @@ PROPS = {
         "assumptions": ["the decoded StakeDoc of a transaction's data is an input of the model (decoded by the real stdcode)"],
     },
     "C18": {
-        "modules": ["C18"],
+        "modules": ["C18", "PinC18"],
         "streams": [{"name": "mint", "quick": 360, "thorough": 12000}, {"name": "apply", "quick": 90, "thorough": 3200}],
         "projection": "speed",
         "oracles": ["mint"],
@@ -160,7 +160,7 @@ PROPS = {
         "assumptions": ["no covenant hashes to the zero address; marker ids are disjoint from transaction hashes and reward ids (keyed-hash domain separation)"],
     },
     "C20": {
-        "modules": ["C20", "Reach"],
+        "modules": ["C20", "Reach", "PinC20"],
         "streams": [{"name": "activation", "quick": 90, "thorough": 3200}, {"name": "apply", "quick": 120, "thorough": 4800}, {"name": "seal", "quick": 120, "thorough": 4800}, {"name": "chain", "quick": 90, "thorough": 3200}],
         "projection": "counts",
         "oracles": ["counts"],
